@@ -352,6 +352,9 @@ func runCheck(spec Spec, tier string) int {
 	if spec.ExtraRun != "" {
 		x := spec
 		x.Run, x.Race = spec.ExtraRun, spec.ExtraRace
+		if spec.ExtraEngine != "" {
+			x.Engine = spec.ExtraEngine
+		}
 		xbin, err := build(x)
 		if err != nil {
 			fmt.Println(err)
